@@ -1,7 +1,7 @@
 (* C05/RtProofs.v — C02, GVariant half: the deserializer model reads back what the format prescribes (and, outside the
    known classes, what the serializer model writes): decode (encode v) = v, consuming exactly the encoding.
-   Fragment: every type except dicts (fixed-size types, strings, object paths, signatures, variants, maybes, arrays,
-   tuples), values outside the known classes of C05, without descriptors. *)
+   All types (fixed-size types, strings, object paths, signatures, variants, maybes, arrays, tuples, dicts); values outside
+   the known classes of C05, without descriptors; the type string of a variant's payload at most stack_limit bytes. *)
 From ZV Require Import Base.Bytes Base.Res Base.Sig Base.SigParse Base.Utf8 DBus.Val DBus.Spec DBus.Ser DBus.De DBus.SerFacts
   C05.Val C05.Spec C05.Model C05.DeModel C05.Classes C05.Facts C05.SigFacts C05.SerProofs C05.DeProofs C05.RtFacts.
 From ZV Require DBus.DeCompleteFacts DBus.SerProofs.
@@ -241,7 +241,6 @@ Section R.
   (* ---------- (A) any value of the fragment is read back from a window that is exactly its (padded) encoding ---------- *)
   Definition node_rt (v : gval) : bool :=
     match v with
-    | GDict _ _ _ => false
     | GVariant x => len (show (gsig x)) <=? stack_limit
     | _ => true
     end.
@@ -1051,7 +1050,415 @@ Section R.
     - unfold gde in Hdec1. rewrite Hdec1. cbn [bind]. eexists. split; [reflexivity|]. cbn [adv r_pos]. lia.
   Qed.
 
-  (* ---------- the round-trip theorem on the fragment ---------- *)
+  (* ---------- dicts ---------- *)
+  Lemma rtok_dict ks vs l : rtok (GDict ks vs l) = true -> forallb (fun q => rtok (fst q) && rtok (snd q)) l = true.
+  Proof. unfold rtok. rewrite all_nodes_dict. cbn [node_rt andb]. tauto. Qed.
+
+  (* side conditions on one entry *)
+  Definition dentry_ok (d : depths) (ks vs : sig) (p : gval * gval) : Prop :=
+    gwf (fst p) = true /\ gwf (snd p) = true /\ gsig (fst p) = ks /\ gsig (snd p) = vs /\
+    pre e (fst p) = true /\ pre e (snd p) = true /\ rtok (fst p) = true /\ rtok (snd p) = true /\
+    gdepth_ok (d_struct d) (d_array d) (dtot d) (fst p) = true /\
+    gdepth_ok (d_struct d) (d_array d) (dtot d) (snd p) = true /\
+    (gis_fixed ks && gis_fixed vs = true -> padn (len (concat (entry_parts e vs p))) (N.max (galign ks) (galign vs)) = 0) /\
+    len (concat (entry_parts e vs p)) + 8 <= 18446744073709551615.
+
+  Fixpoint gheightp (l : list (gval * gval)) : nat :=
+    match l with [] => 0%nat | (k, x) :: r => Nat.max (Nat.max (gheight k) (gheight x)) (gheightp r) end.
+  Lemma gheight_dict ks vs l : gheight (GDict ks vs l) = S (gheightp l).
+  Proof. reflexivity. Qed.
+
+  (* the bytes of one entry, outside the tail_padding class *)
+  Lemma entry_bytes ks vs p :
+    (gis_fixed ks && gis_fixed vs = true -> padn (len (concat (entry_parts e vs p))) (N.max (galign ks) (galign vs)) = 0) ->
+    tuple_bytes (N.max (galign ks) (galign vs)) [ks; vs] (entry_parts e vs p) =
+    concat (entry_parts e vs p) ++
+    (if gis_fixed ks then [] else le_bytes (N.to_nat (offset_width (len (concat (entry_parts e vs p))) 1)) (len (gvb e (fst p)))).
+  Proof.
+    intros Ht. rewrite entry_tuple. cbv zeta. destruct (gis_fixed ks) eqn:Hk; destruct (gis_fixed vs) eqn:Hv; cbn [andb] in *; try reflexivity.
+    unfold pad. rewrite (Ht eq_refl). reflexivity.
+  Qed.
+
+  Lemma dict_loop_rt l : Forall (fun p => rt (fst p) /\ rt (snd p)) l -> forall fuel (k : nat) st a ks vs acc off t,
+    (length l < k)%nat -> (gheightp l <= fuel)%nat -> r_e st = e ->
+    Forall (dentry_ok (r_dep st) ks vs) l ->
+    a_child a = ks -> a_al a = N.max (galign ks) (galign vs) ->
+    a_kos a = (if gis_fixed ks then None else Some 1) ->
+    dep_ok (r_dep st) -> r_len st < big -> r_pos st = a_start a + off ->
+    a_start a + a_len a = r_pos st + len (concat (geparts e ks vs l off)) ->
+    a_start a + a_len a + a_offs_len a <= r_len st ->
+    (r_pos0 st + a_start a) mod N.max (galign ks) (galign vs) = 0 ->
+    r_rest st = concat (geparts e ks vs l off) ++ t ->
+    exists st', dict_loop (gde fuel) a ks vs k
+                  (if gis_fixed ks && gis_fixed vs then None else Some (ends_from off (geparts e ks vs l off))) st acc
+                = Ok (frev acc ++ l, st') /\
+                r_pos st' = a_start a + a_len a + a_offs_len a.
+  Proof.
+    induction 1 as [|[key x] l [Hk Hx] Hl IH]; intros fuel k st a ks vs acc off t Hkf Hfuel He Hok Hch Hal_a Hkos Hd Hlen Hpos Hend Hbound Hal Hrest;
+      (destruct k as [|k]; [cbn in Hkf; lia|]); cbn [dict_loop].
+    - cbn [geparts concat ends_from] in *. rewrite len_nil in Hend.
+      assert (Hdone : garr_done st a (if gis_fixed ks && gis_fixed vs then None else Some []) = true).
+      { destruct (gis_fixed ks && gis_fixed vs); cbn [garr_done]; [|reflexivity]. apply N.eqb_eq. lia. }
+      rewrite Hdone. eexists. split; [now rewrite app_nil_r|]. unfold garr_finish. cbn [rset_dep adv r_pos]. lia.
+    - apply Forall_cons_iff in Hok as [Hp Hokl].
+      destruct Hp as (Hwk & Hwx & Hsk & Hsx & Hpk & Hpx & Hrk & Hrx & Hdk & Hdx & Htail & Hsm). cbn [fst snd] in *.
+      cbn [gheightp length] in *.
+      set (al := N.max (galign ks) (galign vs)) in *.
+      assert (Hpal : pow2 al) by (apply pow2_max; apply galign_pow2).
+      assert (Hal0 : al <> 0) by now apply pow2_nz.
+      set (kb := gvb e key). set (vb := pad (len kb) (galign vs) ++ gvb e x).
+      assert (Hparts : concat (entry_parts e vs (key, x)) = kb ++ vb).
+      { unfold entry_parts. cbn [fst snd concat]. now rewrite app_nil_r. }
+      set (n := len (kb ++ vb)).
+      set (tl := if gis_fixed ks then [] else le_bytes (N.to_nat (offset_width n 1)) (len kb)).
+      assert (HE : tuple_bytes al [ks; vs] (entry_parts e vs (key, x)) = kb ++ vb ++ tl).
+      { subst al. rewrite (entry_bytes ks vs (key, x) Htail). rewrite Hparts. cbn [fst]. fold kb n. subst tl. now rewrite <- app_assoc. }
+      set (P := pad off al).
+      set (E := P ++ kb ++ vb ++ tl).
+      assert (Hgp : geparts e ks vs ((key, x) :: l) off = E :: geparts e ks vs l (off + len E)).
+      { cbn [geparts]. fold al. rewrite HE. reflexivity. }
+      rewrite Hgp in *. cbn [concat ends_from] in *. rewrite len_app in Hend.
+      set (parts' := geparts e ks vs l (off + len E)) in *. set (rest := concat parts') in *.
+      assert (HlenE : len E = len P + len kb + len vb + len tl) by (subst E; rewrite !len_app; lia).
+      assert (Hn : n = len kb + len vb) by (subst n; now rewrite len_app).
+      rewrite Hparts in Hsm. fold n in Hsm.
+      assert (HlenP : len P = padn (r_pos0 st + r_pos st) al).
+      { subst P. rewrite len_pad, Hpos, N.add_assoc. symmetry. now apply padn_shift. }
+      assert (HPeq : pad (r_pos0 st + r_pos st) al = P).
+      { subst P. rewrite Hpos, N.add_assoc. now apply pad_shift. }
+      (* the padding before the entry *)
+      assert (Hpadrun : gparse_padding st (a_al a) = Ok (adv st (len P))).
+      { rewrite Hal_a. fold al. rewrite HlenP. apply (gparse_padding_starts st al (kb ++ vb ++ tl ++ rest)).
+        rewrite HPeq. exists t. split.
+        - rewrite Hrest. subst E. now rewrite <- !app_assoc.
+        - rewrite !len_app. lia. }
+      set (st1 := adv st (len P)).
+      assert (Hr1 : r_rest st1 = kb ++ vb ++ tl ++ rest ++ t).
+      { subst st1. cbn [adv r_rest]. rewrite Hrest. subst E. rewrite <- !app_assoc. apply dropN_app_len. }
+      assert (Hp1 : r_pos st1 = r_pos st + len P) by reflexivity.
+      assert (Hal1 : (r_pos0 st1 + r_pos st1) mod al = 0).
+      { subst st1. cbn [adv r_pos0 r_pos]. rewrite N.add_assoc, HlenP. now apply padn_after. }
+      assert (Halk : (r_pos0 st1 + r_pos st1) mod galign (gsig key) = 0).
+      { apply (mod_trans _ al); try assumption; [apply galign_nz|]. rewrite Hsk. apply max_div_l; apply galign_pow2. }
+      assert (Halv : (r_pos0 st1 + r_pos st1) mod galign (gsig x) = 0).
+      { apply (mod_trans _ al); try assumption; [apply galign_nz|]. rewrite Hsx. apply max_div_r; apply galign_pow2. }
+      assert (Hl1 : r_len st1 = r_len st) by reflexivity.
+      assert (Hd1 : r_dep st1 = r_dep st) by reflexivity.
+      assert (He1 : r_e st1 = e) by exact He.
+      assert (Hp01 : r_pos0 st1 = r_pos0 st) by reflexivity.
+      (* continuing with the next entry from a state [st3] at the end of this one *)
+      assert (Hnext : forall st3, r_pos st3 = r_pos st + len E -> r_rest st3 = rest ++ t -> r_len st3 = r_len st ->
+                r_dep st3 = r_dep st -> r_e st3 = e -> r_pos0 st3 = r_pos0 st ->
+                exists st', dict_loop (gde fuel) a ks vs k
+                              (if gis_fixed ks && gis_fixed vs then None else Some (ends_from (off + len E) parts')) st3 ((key, x) :: acc)
+                            = Ok (frev acc ++ (key, x) :: l, st') /\ r_pos st' = a_start a + a_len a + a_offs_len a).
+      { intros st3 H3p H3r H3l H3d H3e H3p0.
+        destruct (IH fuel k st3 a ks vs ((key, x) :: acc) (off + len E) t) as (st' & Hrun & Hp'); try assumption; try lia.
+        - now rewrite H3d.
+        - now rewrite H3d.
+        - fold parts' rest. lia.
+        - now rewrite H3p0.
+        - exists st'. split; [|exact Hp']. fold parts' in Hrun. rewrite Hrun. rewrite !frev_rev. cbn [rev]. now rewrite <- app_assoc. }
+      destruct (gis_fixed ks) eqn:Hfk.
+      + (* fixed-size key: no key offset *)
+        assert (Htl : tl = []) by reflexivity. rewrite Htl in *. rewrite len_nil in HlenE. clear Htl.
+        assert (Hkb1 : 1 <= len kb) by (apply fixed_nonempty; [assumption|now rewrite Hsk]).
+        destruct (gis_fixed vs) eqn:Hfv; cbn [andb] in *.
+        * (* both fixed: no framing at all; every window extends to the end of the array *)
+          cbn [garr_done]. destruct (N.eqb_spec (r_pos st) (a_start a + a_len a)); [lia|].
+          rewrite Hpadrun. cbn [bind]. rewrite Hkos. cbn [bind]. fold st1.
+          destruct (sub_starts st1 (a_start a + a_len a) (a_child a) (r_dep st1) (kb ++ vb ++ rest))
+            as (sub & Hsub & Hss & Hs0 & Hsl & Hsp0 & Hse & Hssig & Hsdep & _).
+          { rewrite Hp1. lia. } { rewrite Hl1. lia. }
+          { exists t. rewrite Hr1. cbn [app]. now rewrite <- !app_assoc. }
+          { rewrite Hp1, !len_app. lia. }
+          rewrite Hsub. cbn [bind].
+          assert (K1 : (gheight key <= fuel)%nat) by lia.
+          assert (K2 : r_e sub = e) by congruence.
+          assert (K3 : gis_fixed (gsig key) = true) by (now rewrite Hsk).
+          assert (K4 : r_sig sub = gsig key) by congruence.
+          assert (K5 : dep_ok (r_dep sub)) by (now rewrite Hsdep, Hd1).
+          assert (K6 : gfits (r_dep sub) key) by (unfold gfits; now rewrite Hsdep, Hd1).
+          assert (K7 : r_len sub < big) by (rewrite Hsl; unfold big in *; lia).
+          assert (K8 : starts sub ((pad (r_pos0 sub + r_pos sub) (galign (gsig key)) ++ gvb e key) ++ vb ++ rest)).
+          { rewrite Hsp0, Hs0, N.add_0_r. rewrite (pad_aligned _ _ (galign_nz _) Halk). cbn [app]. fold kb. exact Hss. }
+          destruct (rt_fixed_all key fuel sub (vb ++ rest) K1 K2 Hwk Hpk K3 K4 K5 K6 K7 K8) as (sub' & Hdec & Hsub').
+          rewrite Hdec. cbn [bind]. rewrite Hsp0, Hs0, N.add_0_r in Hsub'. rewrite (pad_aligned _ _ (galign_nz _) Halk) in Hsub'.
+          cbn [app] in Hsub'. rewrite N.add_0_l in Hsub'. fold kb in Hsub'. rewrite Hsub'.
+          set (st2 := adv st1 (len kb)).
+          assert (Hp2 : r_pos st2 = r_pos st + len P + len kb) by reflexivity.
+          assert (He2 : r_e st2 = e) by exact He.
+          assert (Hd2 : r_dep st2 = r_dep st) by reflexivity.
+          destruct (N.ltb_spec (a_start a + a_len a) (r_pos st2)); [lia|]. cbn [bind].
+          destruct (sub_starts st2 (a_start a + a_len a) vs (r_dep st2) (vb ++ rest))
+            as (vsub & Hvsub & Hvss & Hvs0 & Hvsl & Hvsp0 & Hvse & Hvssig & Hvsdep & _).
+          { rewrite Hp2. lia. } { change (r_len st2) with (r_len st). lia. }
+          { exists t. subst st2. cbn [adv r_rest]. rewrite Hr1. rewrite dropN_app_len. now rewrite <- !app_assoc. }
+          { rewrite Hp2, !len_app. lia. }
+          rewrite Hvsub. cbn [bind].
+          assert (Hpadv : pad (r_pos0 vsub + r_pos vsub) (galign (gsig x)) = pad (len kb) (galign vs)).
+          { rewrite Hvsp0, Hvs0, N.add_0_r. subst st2. cbn [adv r_pos0 r_pos]. rewrite N.add_assoc, Hsx.
+            apply pad_shift; [apply galign_nz|]. rewrite <- Hsx. exact Halv. }
+          assert (V1 : (gheight x <= fuel)%nat) by lia.
+          assert (V2 : r_e vsub = e) by congruence.
+          assert (V3 : gis_fixed (gsig x) = true) by (now rewrite Hsx).
+          assert (V4 : r_sig vsub = gsig x) by congruence.
+          assert (V5 : dep_ok (r_dep vsub)) by (now rewrite Hvsdep, Hd2).
+          assert (V6 : gfits (r_dep vsub) x) by (unfold gfits; now rewrite Hvsdep, Hd2).
+          assert (V7 : r_len vsub < big) by (rewrite Hvsl; unfold big in *; lia).
+          assert (V8 : starts vsub ((pad (r_pos0 vsub + r_pos vsub) (galign (gsig x)) ++ gvb e x) ++ rest)).
+          { rewrite Hpadv. fold vb. exact Hvss. }
+          destruct (rt_fixed_all x fuel vsub (rest) V1 V2 Hwx Hpx V3 V4 V5 V6 V7 V8) as (vsub' & Hvdec & Hvsub').
+          rewrite Hvdec. cbn [bind]. rewrite Hpadv in Hvsub'. fold vb in Hvsub'. rewrite Hvs0, N.add_0_l in Hvsub'. rewrite Hvsub'.
+          set (st3 := adv st2 (len vb)).
+          assert (Hp3 : r_pos st3 = r_pos st + len E) by (subst st3 st2 st1; cbn [adv r_pos]; lia).
+          destruct (N.ltb_spec (a_start a + a_len a) (r_pos st3)); [lia|].
+          rewrite Hsk, Hsx, !sig_eqb_refl. cbn [negb orb].
+          apply Hnext; try assumption; try reflexivity.
+          subst st3 st2. cbn [adv r_rest]. rewrite Hr1. rewrite dropN_app_len. cbn [app]. now rewrite dropN_app_len.
+        * (* fixed key, variable value: the entry ends at its array framing offset *)
+          cbn [garr_done].
+          rewrite Hpadrun. cbn [bind]. rewrite Hkos. cbn [bind]. fold st1.
+          assert (Hee : a_start a + (off + len E) = r_pos st + len E) by lia.
+          rewrite Hee.
+          destruct (sub_starts st1 (r_pos st + len E) (a_child a) (r_dep st1) (kb ++ vb))
+            as (sub & Hsub & Hss & Hs0 & Hsl & Hsp0 & Hse & Hssig & Hsdep & _).
+          { rewrite Hp1. lia. } { rewrite Hl1. lia. }
+          { exists (rest ++ t). rewrite Hr1. cbn [app]. now rewrite <- !app_assoc. }
+          { rewrite Hp1, !len_app. lia. }
+          rewrite Hsub. cbn [bind].
+          assert (K1 : (gheight key <= fuel)%nat) by lia.
+          assert (K2 : r_e sub = e) by congruence.
+          assert (K3 : gis_fixed (gsig key) = true) by (now rewrite Hsk).
+          assert (K4 : r_sig sub = gsig key) by congruence.
+          assert (K5 : dep_ok (r_dep sub)) by (now rewrite Hsdep, Hd1).
+          assert (K6 : gfits (r_dep sub) key) by (unfold gfits; now rewrite Hsdep, Hd1).
+          assert (K7 : r_len sub < big) by (rewrite Hsl; unfold big in *; lia).
+          assert (K8 : starts sub ((pad (r_pos0 sub + r_pos sub) (galign (gsig key)) ++ gvb e key) ++ vb)).
+          { rewrite Hsp0, Hs0, N.add_0_r. rewrite (pad_aligned _ _ (galign_nz _) Halk). cbn [app]. fold kb. exact Hss. }
+          destruct (rt_fixed_all key fuel sub (vb) K1 K2 Hwk Hpk K3 K4 K5 K6 K7 K8) as (sub' & Hdec & Hsub').
+          rewrite Hdec. cbn [bind]. rewrite Hsp0, Hs0, N.add_0_r in Hsub'. rewrite (pad_aligned _ _ (galign_nz _) Halk) in Hsub'.
+          cbn [app] in Hsub'. rewrite N.add_0_l in Hsub'. fold kb in Hsub'. rewrite Hsub'.
+          set (st2 := adv st1 (len kb)).
+          assert (Hp2 : r_pos st2 = r_pos st + len P + len kb) by reflexivity.
+          assert (He2 : r_e st2 = e) by exact He.
+          assert (Hd2 : r_dep st2 = r_dep st) by reflexivity.
+          destruct (N.ltb_spec (a_start a + a_len a) (r_pos st2)); [lia|]. cbn [bind].
+          destruct (sub_starts st2 (r_pos st + len E) vs (r_dep st2) vb)
+            as (vsub & Hvsub & Hvss & Hvs0 & Hvsl & Hvsp0 & Hvse & Hvssig & Hvsdep & _).
+          { rewrite Hp2. lia. } { change (r_len st2) with (r_len st). lia. }
+          { exists (rest ++ t). subst st2. cbn [adv r_rest]. rewrite Hr1. rewrite dropN_app_len. reflexivity. }
+          { rewrite Hp2. lia. }
+          rewrite Hvsub. cbn [bind].
+          assert (Hpadv : pad (r_pos0 vsub + r_pos vsub) (galign (gsig x)) = pad (len kb) (galign vs)).
+          { rewrite Hvsp0, Hvs0, N.add_0_r. subst st2. cbn [adv r_pos0 r_pos]. rewrite N.add_assoc, Hsx.
+            apply pad_shift; [apply galign_nz|]. rewrite <- Hsx. exact Halv. }
+          assert (V1 : (gheight x <= fuel)%nat) by lia.
+          assert (V2 : r_e vsub = e) by congruence.
+          assert (V4 : r_sig vsub = gsig x) by congruence.
+          assert (V5 : dep_ok (r_dep vsub)) by (now rewrite Hvsdep, Hd2).
+          assert (V6 : gfits (r_dep vsub) x) by (unfold gfits; now rewrite Hvsdep, Hd2).
+          assert (V7 : r_len vsub < big) by (rewrite Hvsl; unfold big in *; lia).
+          assert (V8 : holds vsub (pad (r_pos0 vsub + r_pos vsub) (galign (gsig x)) ++ gvb e x)).
+          { rewrite Hpadv. fold vb. destruct Hvss as (t2 & Ht2 & Hb2). exists t2. split; [assumption|]. rewrite Hvs0, Hvsl, Hp2. lia. }
+          destruct (Hx fuel vsub V1 V2 Hwx Hpx Hrx V4 V5 V6 V7 V8) as (vsub' & Hvdec & Hvsub').
+          rewrite Hvdec. cbn [bind]. rewrite Hvsub', Hvsl.
+          set (st3 := adv st2 (r_pos st + len E - r_pos st2)).
+          assert (Hp3 : r_pos st3 = r_pos st + len E) by (subst st3; cbn [adv r_pos]; lia).
+          destruct (N.ltb_spec (a_start a + a_len a) (r_pos st3)); [lia|].
+          rewrite Hsk, Hsx, !sig_eqb_refl. cbn [negb orb].
+          apply Hnext; try assumption; try reflexivity.
+          subst st3. replace (r_pos st + len E - r_pos st2) with (len vb) by lia.
+          subst st2. cbn [adv r_rest]. rewrite Hr1. rewrite dropN_app_len. cbn [app]. now rewrite dropN_app_len.
+      + (* variable-size key: its end is stored in the last bytes of the entry *)
+        cbn [andb] in *.
+        set (w := offset_width n 1) in *.
+        assert (Hw1 : 1 <= w) by apply offset_width_pos.
+        assert (Hltl : len tl = w) by (subst tl; rewrite len_le_bytes; lia).
+        cbn [garr_done].
+        rewrite Hpadrun. cbn [bind]. rewrite Hkos. fold st1.
+        assert (Hee : a_start a + (off + len E) = r_pos st + len E) by lia.
+        rewrite Hee.
+        destruct (N.ltb_spec (r_pos st + len E) (r_pos st1)); [rewrite Hp1 in *; lia|].
+        replace (r_pos st + len E - r_pos st1) with (n + w * 1) by (rewrite Hp1; lia).
+        unfold w at 1. rewrite (for_encoded_framing n 1) by lia. fold w. cbn [bind].
+        destruct (N.ltb_spec (r_len st1) (r_pos st + len E)); [rewrite Hl1 in *; lia|].
+        assert (Hrl : read_last st1 (r_pos st1) (r_pos st + len E) w = Ok (len kb)).
+        { apply (read_last_at st1 (r_pos st1) (r_pos st + len E) w (len kb) (kb ++ vb) (rest ++ t)); try assumption.
+          - rewrite Hp1. lia.
+          - apply offset_fits; [lia|]. fold w. lia.
+          - rewrite Hr1. subst tl. now rewrite <- !app_assoc.
+          - rewrite Hp1, len_app. lia. }
+        rewrite Hrl. cbn [bind].
+        destruct (sub_starts st1 (r_pos st1 + len kb) (a_child a) (r_dep st1) kb)
+          as (sub & Hsub & Hss & Hs0 & Hsl & Hsp0 & Hse & Hssig & Hsdep & _).
+        { lia. } { rewrite Hl1, Hp1. lia. }
+        { exists (vb ++ tl ++ rest ++ t). exact Hr1. }
+        { lia. }
+        rewrite Hsub. cbn [bind].
+        assert (K1 : (gheight key <= fuel)%nat) by lia.
+        assert (K2 : r_e sub = e) by congruence.
+        assert (K4 : r_sig sub = gsig key) by congruence.
+        assert (K5 : dep_ok (r_dep sub)) by (now rewrite Hsdep, Hd1).
+        assert (K6 : gfits (r_dep sub) key) by (unfold gfits; now rewrite Hsdep, Hd1).
+        assert (K7 : r_len sub < big) by (rewrite Hsl; unfold big in *; lia).
+        assert (K8 : holds sub (pad (r_pos0 sub + r_pos sub) (galign (gsig key)) ++ gvb e key)).
+        { rewrite Hsp0, Hs0, N.add_0_r. rewrite (pad_aligned _ _ (galign_nz _) Halk). cbn [app]. fold kb. destruct Hss as (t2 & Ht2 & Hb2). exists t2. split; [assumption|]. rewrite Hs0, Hsl. lia. }
+        destruct (Hk fuel sub K1 K2 Hwk Hpk Hrk K4 K5 K6 K7 K8) as (sub' & Hdec & Hsub').
+        rewrite Hdec. cbn [bind]. rewrite Hsub', Hsl.
+        replace (r_pos st1 + len kb - r_pos st1) with (len kb) by lia.
+        set (st2 := adv st1 (len kb)).
+        assert (Hp2 : r_pos st2 = r_pos st + len P + len kb) by reflexivity.
+          assert (He2 : r_e st2 = e) by exact He.
+          assert (Hd2 : r_dep st2 = r_dep st) by reflexivity.
+        destruct (N.ltb_spec (a_start a + a_len a) (r_pos st2)); [lia|]. cbn [bind].
+        destruct (N.ltb_spec (r_pos st + len E) w); [lia|]. cbn [bind].
+        destruct (sub_starts st2 (r_pos st + len E - w) vs (r_dep st2) vb)
+          as (vsub & Hvsub & Hvss & Hvs0 & Hvsl & Hvsp0 & Hvse & Hvssig & Hvsdep & _).
+        { rewrite Hp2. lia. } { change (r_len st2) with (r_len st). lia. }
+        { exists (tl ++ rest ++ t). subst st2. cbn [adv r_rest]. rewrite Hr1. now rewrite dropN_app_len. }
+        { rewrite Hp2. lia. }
+        rewrite Hvsub. cbn [bind].
+        assert (Hpadv : pad (r_pos0 vsub + r_pos vsub) (galign (gsig x)) = pad (len kb) (galign vs)).
+        { rewrite Hvsp0, Hvs0, N.add_0_r. subst st2. cbn [adv r_pos0 r_pos]. rewrite N.add_assoc, Hsx.
+          apply pad_shift; [apply galign_nz|]. rewrite <- Hsx. exact Halv. }
+        assert (V1 : (gheight x <= fuel)%nat) by lia.
+        assert (V2 : r_e vsub = e) by congruence.
+        assert (V4 : r_sig vsub = gsig x) by congruence.
+        assert (V5 : dep_ok (r_dep vsub)) by (now rewrite Hvsdep, Hd2).
+        assert (V6 : gfits (r_dep vsub) x) by (unfold gfits; now rewrite Hvsdep, Hd2).
+        assert (V7 : r_len vsub < big) by (rewrite Hvsl; unfold big in *; lia).
+        assert (V8 : holds vsub (pad (r_pos0 vsub + r_pos vsub) (galign (gsig x)) ++ gvb e x)).
+        { rewrite Hpadv. fold vb. destruct Hvss as (t2 & Ht2 & Hb2). exists t2. split; [assumption|]. rewrite Hvs0, Hvsl, Hp2. lia. }
+        destruct (Hx fuel vsub V1 V2 Hwx Hpx Hrx V4 V5 V6 V7 V8) as (vsub' & Hvdec & Hvsub').
+        rewrite Hvdec. cbn [bind]. rewrite Hvsub', Hvsl.
+        set (st3 := adv (adv st2 (r_pos st + len E - w - r_pos st2)) w).
+        assert (Hp3 : r_pos st3 = r_pos st + len E) by (subst st3; cbn [adv r_pos]; lia).
+        destruct (N.ltb_spec (a_start a + a_len a) (r_pos st3)); [lia|].
+        rewrite Hsk, Hsx, !sig_eqb_refl. cbn [negb orb].
+        apply Hnext; try assumption; try reflexivity.
+        subst st3. replace (r_pos st + len E - w - r_pos st2) with (len vb) by lia.
+        subst st2. cbn [adv r_rest]. rewrite Hr1. rewrite dropN_app_len, dropN_app_len.
+        rewrite <- Hltl. now rewrite dropN_app_len.
+  Qed.
+
+  Lemma tuple_bytes_len_ge al s sr ps : len (concat ps) <= len (tuple_bytes al (s :: sr) ps).
+  Proof. unfold tuple_bytes. destruct (forallb gis_fixed (s :: sr)); rewrite len_app; lia. Qed.
+
+  Lemma entry_len_le ks vs l : forall off p, In p l ->
+    len (concat (entry_parts e vs p)) <= len (concat (geparts e ks vs l off)).
+  Proof.
+    induction l as [|q l IH]; intros off p Hin; [destruct Hin|]. cbn [geparts concat]. rewrite !len_app.
+    destruct Hin as [->|Hin].
+    - pose proof (tuple_bytes_len_ge (N.max (galign ks) (galign vs)) ks [vs] (entry_parts e vs p)). lia.
+    - specialize (IH (off + len (pad off (N.max (galign ks) (galign vs)) ++ tuple_bytes (N.max (galign ks) (galign vs)) [ks; vs] (entry_parts e vs q))) p Hin).
+      rewrite len_app in IH. lia.
+  Qed.
+
+  Lemma geparts_count ks vs l : forall off,
+    (forall p, In p l -> 1 <= len (gvb e (fst p))) -> N.of_nat (length l) <= len (concat (geparts e ks vs l off)).
+  Proof.
+    induction l as [|q l IH]; intros off Hk; [cbn; lia|]. cbn [geparts concat length]. rewrite !len_app.
+    pose proof (tuple_bytes_len_ge (N.max (galign ks) (galign vs)) ks [vs] (entry_parts e vs q)) as Hge.
+    unfold entry_parts in Hge at 1. cbn [concat] in Hge. rewrite !len_app in Hge.
+    specialize (Hk q (or_introl eq_refl)) as Hq.
+    specialize (IH (off + len (pad off (N.max (galign ks) (galign vs)) ++ tuple_bytes (N.max (galign ks) (galign vs)) [ks; vs] (entry_parts e vs q)))
+                   (fun p Hp => Hk p (or_intror Hp))).
+    rewrite len_app in IH. lia.
+  Qed.
+  Lemma length_geparts ks vs l off : length (geparts e ks vs l off) = length l.
+  Proof. revert off. induction l as [|q l IH]; intros off; cbn [geparts length]; [reflexivity|]. now rewrite IH. Qed.
+
+  Lemma rt_dict ks vs l : Forall (fun p => rt (fst p) /\ rt (snd p)) l -> rt (GDict ks vs l).
+  Proof.
+    intros HF fuel st Hfuel He Hw Hp Hr Hs Hd Hf Hl Hst. destruct fuel as [|f]; [cbn in Hfuel; lia|].
+    rewrite gheight_dict in Hfuel.
+    pose proof (pre_align e _ Hp Hw) as Hal. cbn [gsig galign] in *.
+    destruct (pre_node e _ Hp) as (_ & Hnt & _ & _ & Hsmall).
+    cbn [gwf] in Hw. apply andb_true_iff in Hw as [Hw Hwl]. apply andb_true_iff in Hw as [Hkb Hvs].
+    unfold pre in Hp. rewrite all_nodes_dict in Hp. apply andb_true_iff in Hp as [_ Hpl].
+    apply rtok_dict in Hr.
+    unfold gfits in Hf. cbn [gdepth_ok] in Hf. apply andb_true_iff in Hf as [Hf Hfl]. apply andb_true_iff in Hf as [Hf1 Hf2].
+    apply N.leb_le in Hf1, Hf2.
+    destruct (inc_array_good _ Hd Hf1 Hf2) as (d' & Hinc & Hdec & Hd' & Hs' & Ha' & Ht').
+    set (al := N.max (galign ks) (galign vs)) in *.
+    assert (Hal0 : al <> 0) by (apply pow2_nz, pow2_max; apply galign_pow2).
+    rewrite gvb_dict in Hst, Hsmall. cbv zeta in Hst, Hsmall.
+    set (ps := geparts e ks vs l 0) in *. set (data := concat ps) in *.
+    set (p := padn (r_pos0 st + r_pos st) al).
+    unfold gde. rewrite (gde_gen_dict read_last f st ks vs Hs). rewrite Hs, Hal.
+    rewrite (gparse_padding_starts st al _ (holds_starts _ _ Hst)). cbn [bind]. fold p.
+    apply holds_after_pad in Hst. fold p in Hst.
+    assert (Hal2 : (r_pos0 (adv st p) + r_pos (adv st p)) mod al = 0).
+    { cbn [adv r_pos0 r_pos]. rewrite N.add_assoc. subst p. now apply padn_after. }
+    (* the entries *)
+    assert (Hok : Forall (dentry_ok d' ks vs) l).
+    { apply Forall_forall. intros q Hq.
+      rewrite forallb_forall in Hwl, Hpl, Hfl, Hr. specialize (Hwl q Hq). specialize (Hpl q Hq). specialize (Hfl q Hq). specialize (Hr q Hq).
+      apply andb_true_iff in Hwl as [Hwl Hq4]. apply andb_true_iff in Hwl as [Hwl Hq3]. apply andb_true_iff in Hwl as [Hq1 Hq2].
+      apply sig_eqb_eq in Hq3, Hq4. apply andb_true_iff in Hpl as [Hq5 Hq6]. apply andb_true_iff in Hfl as [Hq7 Hq8].
+      apply andb_true_iff in Hr as [Hq9 Hq10].
+      unfold dentry_ok. rewrite Hs', Ha', Ht'. repeat split; try assumption.
+      - intros Hfx. cbn [node_tail] in Hnt. rewrite Hfx in Hnt. cbn [andb] in Hnt.
+        destruct (padn (len (concat (entry_parts e vs q))) al =? 0) eqn:Hz; [now apply N.eqb_eq in Hz|].
+        exfalso. rewrite <- Bool.not_true_iff_false in Hnt. apply Hnt. apply existsb_exists. exists q. split; [assumption|].
+        change (N.max (galign ks) (galign vs)) with al. now rewrite Hz.
+      - pose proof (entry_len_le ks vs l 0 q Hq) as Hle. fold ps data in Hle.
+        assert (len data < 2 ^ 60) by (destruct (gis_fixed ks && gis_fixed vs); [assumption|rewrite len_app in Hsmall; lia]).
+        change (2 ^ 60) with 1152921504606846976 in *. lia. }
+    (* ArrayDeserializer::new *)
+    unfold garr_new. change (r_dep (adv st p)) with (r_dep st). rewrite Hinc. cbn [bind].
+    change (r_sig (rset_dep (adv st p) d')) with (r_sig st). rewrite Hs, Hal.
+    rewrite gparse_padding_aligned by (assumption || exact Hal2). cbn [bind].
+    destruct Hst as (t & Ht & Hb). cbn [adv r_pos r_len r_rest] in Ht, Hb.
+    cbn [rset_dep adv r_len r_pos r_sig]. destruct (N.ltb_spec (r_len st) (r_pos st + p)); [rewrite ?len_app in Hb; lia|]. rewrite Hs. cbn [bind].
+    change fixed_sized with gis_fixed.
+    destruct (gis_fixed ks && gis_fixed vs) eqn:Hfx.
+    - (* fixed-size entries *)
+      cbn [bind a_offs].
+      set (a := {| a_len := r_len st - (r_pos st + p); a_start := r_pos st + p; a_al := al; a_child := ks; a_vsig := Some vs;
+                   a_offs := None; a_offs_len := 0; a_kos := None |}).
+      apply andb_true_iff in Hfx as [Hfk Hfv].
+      pose proof (dict_loop_rt l HF f (S (N.to_nat (r_len st))) (rset_dep (adv st p) d') a ks vs [] 0 t) as Hrun.
+      rewrite Hfk, Hfv in Hrun. cbn [andb] in Hrun.
+      destruct Hrun as (st' & Hrun & Hp'); subst a;
+        cbn [rset_dep adv r_e r_dep r_len r_pos r_pos0 r_rest a_child a_offs a_offs_len a_start a_len a_al a_kos]; try assumption; try reflexivity; try lia.
+      + assert (Hc : N.of_nat (length l) <= len data).
+        { subst data ps. apply geparts_count. intros q Hq. rewrite Forall_forall in Hok. destruct (Hok q Hq) as (Hq1 & _ & Hq3 & _).
+          apply fixed_nonempty; [assumption|now rewrite Hq3]. }
+        lia.
+      + fold ps data. lia.
+      + cbn [rset_dep adv r_len] in Hrun. unfold gde in Hrun. rewrite Hrun. cbn [bind frev rev_append app].
+        exists st'. split; [reflexivity|]. cbn [a_start a_len a_offs_len] in Hp'. rewrite Hp'. lia.
+    - (* entries delimited by framing offsets *)
+      set (ends := ends_from 0 ps) in *. set (F := framing (len data) ends) in *.
+      assert (Hsm : len data + 8 * N.of_nat (length ps) <= 18446744073709551615).
+      { rewrite len_app in Hsmall. subst F. rewrite len_framing in Hsmall. subst ends. rewrite length_ends_from in Hsmall.
+        pose proof (offset_width_pos (len data) (N.of_nat (length ps))) as Hw1.
+        change (2 ^ 60) with 1152921504606846976 in Hsmall. nia. }
+      assert (Hholds : holds (rset_dep (adv st p) d') (data ++ F)).
+      { exists t. cbn [rset_dep adv r_rest r_pos r_len]. split; [exact Ht|exact Hb]. }
+      rewrite (from_encoded_run _ ps Hsm Hholds). fold data ends F. cbn [bind].
+      rewrite len_app in Hb.
+      destruct (N.ltb_spec (r_len st - (r_pos st + p)) (len F)); [lia|]. cbn [bind a_offs].
+      set (a := {| a_len := r_len st - (r_pos st + p) - len F; a_start := r_pos st + p; a_al := al; a_child := ks; a_vsig := Some vs;
+                   a_offs := Some ends; a_offs_len := len F; a_kos := if gis_fixed ks then None else Some 1 |}).
+      pose proof (dict_loop_rt l HF f (S (N.to_nat (r_len st))) (rset_dep (adv st p) d') a ks vs [] 0 (F ++ t)) as Hrun.
+      rewrite Hfx in Hrun.
+      destruct Hrun as (st' & Hrun & Hp'); subst a;
+        cbn [rset_dep adv r_e r_dep r_len r_pos r_pos0 r_rest a_child a_offs a_offs_len a_start a_len a_al a_kos]; try assumption; try reflexivity; try lia.
+      + destruct l as [|q0 l0]; [cbn; lia|].
+        assert (HlF : N.of_nat (length (q0 :: l0)) <= len F).
+        { subst F. rewrite len_framing. subst ends ps. rewrite length_ends_from, length_geparts.
+          pose proof (offset_width_pos (len data) (N.of_nat (length (q0 :: l0)))). nia. }
+        lia.
+      + fold ps data. lia.
+      + fold ps data. rewrite Ht. now rewrite <- app_assoc.
+      + cbn [rset_dep adv r_len] in Hrun. unfold gde in Hrun. fold ps ends in Hrun. rewrite Hrun. cbn [bind frev rev_append app].
+        exists st'. split; [reflexivity|]. cbn [a_start a_len a_offs_len] in Hp'. rewrite Hp'. lia.
+  Qed.
+
+  (* ---------- the round-trip theorem ---------- *)
   Theorem rt_all : forall v, rt v.
   Proof.
     induction v using gval_ind'.
@@ -1061,8 +1468,7 @@ Section R.
     - apply rt_str. - apply rt_sigv. - apply rt_path. - now apply rt_variant.
     - apply rt_of_fixed; reflexivity.
     - destruct (gis_fixed el) eqn:Hfx; [now apply rt_array_fixed|now apply rt_array_var].
-    - (* dicts are outside the fragment *)
-      intros fuel st Hfuel He Hw Hp Hr. unfold rtok in Hr. cbn [all_nodes node_rt andb] in Hr. discriminate.
+    - now apply rt_dict.
     - destruct (forallb gis_fixed (map gsig l)) eqn:Hfx; [apply rt_of_fixed; exact Hfx|now apply rt_struct_var].
     - apply rt_nothing. - now apply rt_just.
   Qed.
